@@ -30,7 +30,7 @@ func init() {
 				n = 3
 			}
 			return seeded("C20", seed, n, func(i int, sd uint64) *k.Spec {
-				s := &k.Spec{Params: cp(c03Confs[i%3], "race", "1", "killrace", []string{"0", "1"}[k.H(sd, "kr", 0)%2])}
+				s := &k.Spec{Seed: sd, Params: cp(c03Confs[i%3], "race", "1", "killrace", []string{"0", "1"}[k.H(sd, "kr", 0)%2])}
 				if i%5 == 4 {
 					// a plugin whose start fails: the goroutines use the client-level operations only
 					s.Params["failing"] = c20Failing[int(k.H(sd, "failing", 0)%uint64(len(c20Failing)))]
